@@ -151,9 +151,35 @@ static void op_census(const McArg *a) {
     if (spec_is_pent_bc(bc) || bc >= 120) mc_nontrivial();
     MC_CHECK((int64_t)acc == want, "resolution %d, base cell %d: isValidCell accepts %" PRIu64 " index values, the cell count formula 2+120*7^r needs %" PRId64, r, bc, acc, want);
 }
-enum { OP_RT, OP_RTN, OP_SUB, OP_COUNTS, OP_TALLY, OP_CENSUS };
-const McOp MC_OPS[] = {{"rt", "h", op_rt}, {"rtn", "h", op_rtn}, {"sub", "hi", op_sub}, {"counts", "", op_counts}, {"tally", "i", op_tally}, {"census", "ii", op_census}};
-const int MC_NOPS = 6;
+// dev(r, fill, bc): census by single and double digit deviations at resolutions the full census cannot reach: the fill pattern d^r under
+// base cell bc with one or two digit positions (1..15) replaced by every value 0..7: isValidCell must accept exactly the values the
+// documented layout makes cells, and every accepted value must round-trip through its centre
+static void op_dev(const McArg *a) {
+    int r = (int)a[0].i, fill = (int)a[1].i, bc = (int)a[2].i;
+    int d[15];
+    for (int i = 0; i < 15; i++) d[i] = i < r ? fill : 7;
+    uint64_t base = ((uint64_t)1 << 59) | ((uint64_t)r << 52) | ((uint64_t)bc << 45);
+    for (int i = 0; i < 15; i++) base |= (uint64_t)d[i] << (3 * (14 - i));
+    for (int p1 = 0; p1 < 15; p1++)
+        for (int p2 = p1; p2 < 15; p2++)
+            for (int v1 = 0; v1 < 8; v1++)
+                for (int v2 = 0; v2 < (p2 == p1 ? 1 : 8); v2++) {
+                    uint64_t h = (base & ~((uint64_t)7 << (3 * (14 - p1)))) | ((uint64_t)v1 << (3 * (14 - p1)));
+                    if (p2 != p1) h = (h & ~((uint64_t)7 << (3 * (14 - p2)))) | ((uint64_t)v2 << (3 * (14 - p2)));
+                    int acc = isValidCell(h), want = spec_valid(h);
+                    mc_trans(1);
+                    MC_CHECK(acc == want, "isValidCell(%" PRIx64 ") = %d, the documented layout says %d: the valid cells of resolution %d would not number 2+120*7^r", h, acc, want, r);
+                    if (!acc) continue;
+                    LatLng g;
+                    uint64_t back = 0;
+                    H3Error e = cellToLatLng(h, &g);
+                    MC_CHECK(e == 0 && latLngToCell(&g, r, &back) == 0 && back == h, "valid cell %" PRIx64 " does not round-trip through its centre (cellToLatLng %d, back %" PRIx64 ")", h, e, back);
+                }
+    if (spec_is_pent_bc(bc)) mc_nontrivial();
+}
+enum { OP_RT, OP_RTN, OP_SUB, OP_COUNTS, OP_TALLY, OP_CENSUS, OP_DEV };
+const McOp MC_OPS[] = {{"rt", "h", op_rt}, {"rtn", "h", op_rtn}, {"sub", "hi", op_sub}, {"counts", "", op_counts}, {"tally", "i", op_tally}, {"census", "ii", op_census}, {"dev", "iii", op_dev}};
+const int MC_NOPS = 7;
 
 static int g_fullmax;
 static void ph_full(void *u) {
@@ -184,6 +210,17 @@ static void ph_census(void *u) {
             MC_RUN(OP_CENSUS, I(r), I(bc));
         }
 }
+static void ph_dev(void *u) {
+    static const int bcs[] = {0, 4, 15, 58, 117, 121};
+    uint64_t idx = 0;
+    for (int r = 0; r <= 15; r++)
+        for (int fill = 0; fill <= 6; fill += 1)
+            for (int b = 0; b < 6; b++, idx++) {
+                if (!mc_mine(idx)) continue;
+                if (mc_expired()) return;
+                MC_RUN(OP_DEV, I(r), I(fill), I(bcs[b]));
+            }
+}
 static U64Vec g_fine;
 static void ph_fine(void *u) {
     for (size_t i = 0; i < g_fine.n; i++) {
@@ -203,6 +240,7 @@ int main(int argc, char **argv) {
     mc_phase("complete resolutions", ph_full, NULL);
     mc_phase("counts and tallies", ph_tally, NULL);
     mc_phase("census of accepted index values", ph_census, NULL);
+    mc_phase("one- and two-digit deviations at all 16 resolutions", ph_dev, NULL);
     mc_phase("fine families + neighbours", ph_fine, NULL);
     return mc_finish();
 }
